@@ -324,40 +324,99 @@ class Unwritable(Exception):
     """The writer refused the original state (value kinds the format cannot hold: C05's domain)."""
 
 
-def check_state(r, cs, bp):
-    """-> (list of (key,msg), canon digest, loaded digest, stats)"""
-    found = []
-    d = env.fresh_dir("c04")
-    cwd = os.getcwd()
-    os.chdir(d)
-    x = y = z = None
-    try:
-        cyc, node = int(r.p.cycle), int(r.p.timeNode)
+class Live:
+    """The database of ONE execution: opened once, written at every ``write`` transition and at the
+    final state of the same live reactor (as the DatabaseInterface does node after node)."""
+
+    def __init__(self):
+        self.dir = env.fresh_dir("c04")
+        self.db = None
+        self.snaps = []  # (cycle, node, observation of the in-memory reactor at that moment)
+
+    def _in_dir(self, f):
+        cwd = os.getcwd()
+        os.chdir(self.dir)
         try:
-            _write(r, "a.h5")
+            return f()
+        finally:
+            os.chdir(cwd)
+
+    def write(self, r):
+        from armi.bookkeeping.db.database import Database
+
+        if self.db is None:
+            self.db = Database("a.h5", "w")
+            self._in_dir(self.db.open)
+        try:
+            self.db.writeToDB(r)
         except (TypeError, ValueError) as e:
             ex = Unwritable(type(e).__name__)
             ex.detail = str(e)[:160]
             raise ex
+
+    def snapshot(self, r):
+        """The ``write`` transition: write now, remember what was written, go to the next node."""
+        cyc, node = int(r.p.cycle), int(r.p.timeNode)
+        self.write(r)
+        r.core.setBlockMassParams()  # same calibration as in the final state
+        self.snaps.append((cyc, node, _observe(r, True)))
+        r.p.timeNode = node + 1
+
+    def close(self):
+        if self.db is not None:
+            self._in_dir(lambda: self.db.close(True))
+            self.db = None
+
+    def cleanup(self):
         try:
-            x = _load("a.h5", cyc, node, cs, bp)
-            y = _load("a.h5", cyc, node, cs, bp)
-        except Exception as e:
-            found.append(("c04/load-raises/" + type(e).__name__, "loading the file just written raises %r" % (e,)))
-        if x is not None and y is not None:
+            self.close()
+        except Exception:
+            pass
+        shutil.rmtree(self.dir, ignore_errors=True)
+
+
+def check_state(r, cs, bp, live=None):
+    """-> (list of (key,msg), canon digest, loaded digest, stats)"""
+    found = []
+    live = live or Live()
+    x = y = z = None
+    earlier = []
+    try:
+        cyc, node = int(r.p.cycle), int(r.p.timeNode)
+        live.write(r)
+        live.close()
+        cwd = os.getcwd()
+        os.chdir(live.dir)
+        try:
             try:
-                _write(x, "b.h5")
-                z = _load("b.h5", cyc, node, cs, bp)
+                x = _load("a.h5", cyc, node, cs, bp)
+                y = _load("a.h5", cyc, node, cs, bp)
             except Exception as e:
-                found.append(("c04/rewrite-load-raises/" + type(e).__name__, "writing the loaded reactor and loading that file raises %r" % (e,)))
+                found.append(("c04/load-raises/" + type(e).__name__, "loading the file just written raises %r" % (e,)))
+            if x is not None and y is not None:
+                try:
+                    _write(x, "b.h5")
+                    z = _load("b.h5", cyc, node, cs, bp)
+                except Exception as e:
+                    found.append(("c04/rewrite-load-raises/" + type(e).__name__, "writing the loaded reactor and loading that file raises %r" % (e,)))
+            # every earlier snapshot of the same file must still load to what was written then
+            for c0, n0, o0 in live.snaps:
+                try:
+                    earlier.append((c0, n0, o0, _load("a.h5", c0, n0, cs, bp)))
+                except Exception as e:
+                    found.append(("c04/load-raises/" + type(e).__name__, "loading the earlier snapshot (%d,%d) of the same file raises %r" % (c0, n0, e)))
+        finally:
+            os.chdir(cwd)
     finally:
-        os.chdir(cwd)
-        shutil.rmtree(d, ignore_errors=True)
+        live.cleanup()
     # calibration (DESIGN 4/C04): the loader recomputes kgHM/kgFis/puFrac from the loaded
     # composition; bring the original to the same footing through the same public call.
     r.core.setBlockMassParams()
     oa = _observe(r, True)
     canon = _ranked_digest(oa)
+    for c0, n0, o0, x0 in earlier:
+        for key, msg in compare(o0, _observe(x0, True), "write-load"):
+            found.append((key, "snapshot (%d,%d) written earlier in the history: %s" % (c0, n0, msg)))
     if x is None or y is None:
         return found, canon, None, {"nodes": _count(oa)}
     if _is_sorted(x):
@@ -404,16 +463,31 @@ def expand(item):
     init = item["init"]
     r, cs, bp, tg = ops.build_state(init)
     out = "ok"
+    live = Live()
     for k, op in enumerate(item["hist"]):
+        if k == len(item["hist"]) - 1:
+            # observers may leave caches behind (grid.reduce(), volume, lookups): look at the
+            # reactor through the same public queries BEFORE the last mutation as well
+            _observe(r, True)
         try:
-            out = ops.apply(r, cs, tg, op)
+            if op[0] == "write":
+                live.snapshot(r)
+                out = "ok"
+            else:
+                out = ops.apply(r, cs, tg, op)
         except ops.AlphabetError:
+            live.cleanup()
             raise
+        except Unwritable as e:
+            live.cleanup()
+            _note_raised(init, item["hist"], e, kind="unwritable")
+            return {"canon": "unwritable:%s:%s" % (e, item["hist"]), "full": None, "viols": [], "ops": [], "out": "unwritable:%s" % e, "terminal": True, "suppressed": {}, "nodes": 0}
         except Exception as e:
             # The MUTATION itself raised (e.g. Assembly.moveTo scaling a dict-valued volume-integrated
             # parameter). That is not the database round trip C04 is about: the history is recorded
             # as outcome raised:<Exc>, not judged and not extended. Only write/load/compare decide C04.
             out = "raised:%s" % type(e).__name__
+            live.cleanup()
             if k < len(item["hist"]) - 1:
                 raise RuntimeError("prefix replay diverged: operation %d of %s raised %r" % (k, item["hist"], e))
             _note_raised(init, item["hist"], e)
@@ -421,7 +495,7 @@ def expand(item):
         if k < len(item["outs"]) and out != item["outs"][k]:
             raise RuntimeError("prefix replay diverged at %d: %s != %s" % (k, out, item["outs"][k]))
     try:
-        found, canon, loaded, st = check_state(r, cs, bp)
+        found, canon, loaded, st = check_state(r, cs, bp, live)
     except Unwritable as e:
         # not a C04 question: nothing was saved. The state is counted and not extended.
         _note_raised(init, item["hist"], e, kind="unwritable")
